@@ -383,3 +383,54 @@ Proof.
   intros o Ho f Hf. split; [exact (order_sec o Ho f Hf)|].
   intros k x E. subst f. exact (abort_sec o Ho k x Hf).
 Qed.
+
+(* ---------------- the credentials a start-up ends with ---------------- *)
+Lemma str_list_eqb_eq : forall a b, list_eqb str_eqb a b = true -> a = b.
+Proof.
+  induction a as [|x a IH]; destruct b as [|y b]; simpl; try discriminate; [reflexivity|].
+  intros E. apply andb_true_iff in E as [E1 E2]. apply str_eqb_true in E1. subst. f_equal. now apply IH.
+Qed.
+
+Lemma cred_list_inj a b : cred_list a = cred_list b -> a = b.
+Proof. destruct a, b. unfold cred_list. simpl. intros H. inversion H. reflexivity. Qed.
+
+Definition chk_final_out (st : start) (o : opts) (out : outcome) : bool :=
+  match out with
+  | Running tr => list_eqb str_eqb (cred_list (final_cred (start_cred st) tr)) (cred_list (wanted_cred o (start_cred st)))
+  | _ => false
+  end.
+
+Lemma final_dom :
+  forallb (fun o => forallb (fun st => chk_final_out st o (run_initialize_from prog st o None)) all_starts) all_opts = true.
+Proof. vm_cast_no_check (@eq_refl bool true). Qed.
+Lemma final_dom_sec :
+  forallb (fun o => forallb (fun st => chk_final_out st o (run_security_from prog st o None)) all_starts) sec_opts = true.
+Proof. vm_cast_no_check (@eq_refl bool true). Qed.
+
+Lemma final_of_chk st o out : chk_final_out st o out = true ->
+  exists tr, out = Running tr /\ final_cred (start_cred st) tr = wanted_cred o (start_cred st).
+Proof.
+  unfold chk_final_out. destruct out as [tr| | |]; try discriminate. intros H.
+  exists tr. split; [reflexivity|]. apply cred_list_inj. now apply str_list_eqb_eq.
+Qed.
+
+Lemma all_starts_complete st : In st all_starts.
+Proof. destruct st; simpl; tauto. Qed.
+
+Lemma final_credentials : forall o st,
+  exists tr, run_initialize_from prog st o None = Running tr /\
+             final_cred (start_cred st) tr = wanted_cred o (start_cred st).
+Proof.
+  intros o st. apply final_of_chk.
+  pose proof final_dom as H. rewrite forallb_forall in H. specialize (H o (all_opts_complete o)).
+  cbv beta in H. rewrite forallb_forall in H. exact (H st (all_starts_complete st)).
+Qed.
+
+Lemma final_credentials_sec : forall o, In o sec_opts -> forall st,
+  exists tr, run_security_from prog st o None = Running tr /\
+             final_cred (start_cred st) tr = wanted_cred o (start_cred st).
+Proof.
+  intros o Ho st. apply final_of_chk.
+  pose proof final_dom_sec as H. rewrite forallb_forall in H. specialize (H o Ho).
+  cbv beta in H. rewrite forallb_forall in H. exact (H st (all_starts_complete st)).
+Qed.
